@@ -21,6 +21,8 @@ import (
 	"github.com/invopop/gobl/bill"
 	"github.com/invopop/gobl/cbc"
 	"github.com/invopop/gobl/currency"
+	"github.com/invopop/gobl/dsig"
+	"github.com/invopop/gobl/head"
 	"github.com/invopop/gobl/schema"
 	"github.com/invopop/gobl/tax"
 	"github.com/invopop/yaml"
@@ -211,6 +213,8 @@ func worker() int {
 	return 0
 }
 
+var signKey = dsig.NewES256Key()
+
 // Run is the C04 check.
 func Run(c *core.Ctx) int {
 	if os.Getenv("VERIF_C04_WORKER") != "" {
@@ -395,6 +399,49 @@ func Run(c *core.Ctx) int {
 			if !bytes.Equal(b, b1) {
 				c.Fail("", "validate/digest/verify/extract changed the envelope: "+firstDiff(b1, b), cs)
 				continue
+			}
+		}
+		// (2b) the same for the envelope once it is signed and carries header entries in an order that is
+		// not the sorted one (stamps are only allowed on signed envelopes): read, validate, digest, verify
+		// with and without the key, extract — the bytes written afterwards are the bytes read
+		if i%3 == 0 || cs.Doc == nil {
+			e3 := new(gobl.Envelope)
+			if json.Unmarshal(b1, e3) == nil && e3.Validate() == nil {
+				var serr error
+				if pan := core.Protect(func() { serr = e3.Sign(signKey) }); pan == "" && serr == nil {
+					for _, p := range []string{"zeta-prv", "alpha-prv", "mid-prv"} {
+						e3.Head.AddStamp(&head.Stamp{Provider: cbc.Key(p), Value: "v-" + p})
+					}
+					for _, k := range []string{"zz-link", "aa-link"} {
+						e3.Head.AddLink(&head.Link{Key: cbc.Key(k), URL: "https://example.com/" + k})
+					}
+					e3.Head.Tags = append(e3.Head.Tags, "zulu", "alpha")
+					if e3.Head.Meta == nil {
+						e3.Head.Meta = cbc.Meta{}
+					}
+					e3.Head.Meta["zz"], e3.Head.Meta["aa"] = "1", "2"
+					bs, _ := json.Marshal(e3)
+					e4 := new(gobl.Envelope)
+					if err := json.Unmarshal(bs, e4); err != nil {
+						c.Fail("", "signed and stamped envelope does not parse: "+err.Error(), cs)
+						continue
+					}
+					c.Count("signed-and-stamped", 1)
+					var verr, kerr error
+					_ = core.Protect(func() { verr = e4.Validate() })
+					_, _ = e4.Digest()
+					_ = core.Protect(func() { _ = e4.Verify() })
+					_ = core.Protect(func() { kerr = e4.Verify(signKey.Public()) })
+					_ = e4.Extract()
+					b, _ := json.Marshal(e4)
+					if !bytes.Equal(b, bs) {
+						c.Fail("", "validate/digest/verify/extract changed the signed envelope: "+firstDiff(bs, b), cs)
+						continue
+					}
+					if verr != nil || kerr != nil {
+						c.Count("signed-and-stamped:not-valid-or-not-verified", 1)
+					}
+				}
 			}
 		}
 		// (3) calculate is a fixpoint over serialise / parse rounds
